@@ -108,6 +108,7 @@ fn op_kind(op: &Op) -> &'static str {
         Op::RemoveDiscountPrice { .. } => "remove_discount_price",
         Op::SudoParams { .. } => "sudo_params",
         Op::WlAddMember { .. } => "wl_add_member",
+        Op::Migrate { .. } => "migrate",
     }
 }
 
